@@ -224,3 +224,17 @@ Fixpoint all_keys_strings (v : yv) : bool :=
   | VMap m => forallb (fun kv => is_vstr (fst kv) && all_keys_strings (snd kv)) m
   | _ => true
   end.
+
+(* loadYAML / loadDAG without a base configuration: decode, then build *)
+Section Load.
+Variable cron : string -> cronv.
+Variable sig_ok : string -> bool.
+Variable tokenize : string -> list (string * string).
+Variable sh : string -> option string.
+Definition load_tree (o : opts) (root : yv) : M dag :=
+  fun e => match decode root with
+           | Ok d => build cron sig_ok tokenize sh o d [] e
+           | Err => (Err, e, [])
+           | Panic => (Panic, e, [])
+           end.
+End Load.
